@@ -335,7 +335,11 @@ func (m *Module) AssignGlobalIDs() error {
 				got := n.ID()
 				return errors.Errorf("invalid global ID, expected %s, got %s", enc.GlobalID(want), enc.GlobalID(got))
 			}
-			n.SetID(id)
+			// Write the ID only when it changes: once assigned, concurrent printers
+			// read the IDs outside of the lock.
+			if n.ID() != id {
+				n.SetID(id)
+			}
 			id++
 		}
 		return nil
